@@ -257,7 +257,7 @@ def run_scripts(ctx, scripts, name, shards=None):
                     meta = vlib.load_meta(o)
                 sc = meta.get(v["run"], {})
                 v["script"] = sc
-                for k in ("msgcls", "stcls", "mode", "cloner", "fault", "viactx"):
+                for k in ("msgcls", "stcls", "mode", "cloner", "fault", "viactx", "trlbin"):
                     v[k] = sc.get(k)
                 v["events"] = vlib.run_events(o, v["run"])
                 viol.append(v)
@@ -477,6 +477,43 @@ def family_a(ctx, focus):
                      "quiescence scheduler on httpgrpc over the in-memory transport; a second set replayed step by step "
                      "through the verifPoint gates of httpgrpc (reader goroutine, watcher, RecvMsg/SendMsg/CloseSend "
                      "and server stream internals)")
+    # 2b. directed schedules: one shortest behaviour per class of step of the L1
+    #     models (tools/directed.py: breadth-first search under an abstraction
+    #     VIEW, stored with the hash of the specification), replayed step by
+    #     step through the gates; they reach the windows random simulation
+    #     almost never does
+    import directed
+    import random as _random
+    rnd = _random.Random(seed)
+    nd = focus.get("ndirected_q" if q else "ndirected_t", 700 if q else 0)   # per model and kind; 0 = all
+    reps = 1 if q else 3
+    stale = []
+    for model, gated, trn in (("HttpStream", "http", "httpmem"), ("InprocStream", True, "inproc")):
+        for (rq, rs) in STREAM_KINDS:
+            kind = bgen.kind_of(rq, rs)
+            behs, fresh = directed.load(model, kind)
+            if not fresh:
+                stale.append("%s-%s" % (model, kind))
+            if nd and len(behs) > nd:
+                behs = rnd.sample(behs, nd)
+            for j, b in enumerate(behs):
+                for rep in range(reps):
+                    scripts.append(bgen.stream_script(b, kind, trn, "dir-%s-%s-%d-%d" % (trn, kind, j, rep),
+                                                      seed * 100057 + j * 7 + rep, gated=gated))
+    behs, fresh = directed.load("InprocUnary", "unary")
+    if not fresh:
+        stale.append("InprocUnary-unary")
+    for j, b in enumerate(behs):
+        for rep in range(reps):
+            scripts.append(bgen.unary_script(b, "dir-unary-%d-%d" % (j, rep), seed * 100057 + j * 7 + rep))
+    ctx.extra["directed_schedules"] = dict(stale=stale, per_model_kind=nd or "all", repetitions=reps)
+    if stale:
+        ctx.assumptions.append("directed schedules of %s were generated from an earlier version of the specification "
+                               "(tools/directed.py regenerates them); they are still replayed: any behaviour of the "
+                               "real code is a fair sample" % ", ".join(stale))
+    ctx.rules.append("directed schedules: one shortest behaviour per (action, local view, API result) class of the L1 "
+                     "models HttpStream, InprocStream and InprocUnary, found by TLC breadth-first under an abstraction "
+                     "VIEW, replayed step by step through the verifPoint gates")
     _tick(ctx, "L1 simulate")
     # 3. randomized free-running scripts on every transport (data dimension,
     #    concurrency, cancellation races)
@@ -607,7 +644,8 @@ def run_pinned(ctx):
     for k in load_known():
         if k["property"] == ctx.prop and k.get("repro") and k["repro"].get("kind") == "script":
             for i in range(k["repro"].get("repeat", 1)):
-                scripts.append(dict(k["repro"]["script"], id="%s-%d" % (k["id"], i)))
+                sc = k["repro"]["script"]
+                scripts.append(dict(sc, id="%s-%d" % (k["id"], i), seed=sc.get("seed", 1) + i))
     if scripts:
         run_scripts(ctx, scripts, "pinned", shards=1)
 
@@ -739,6 +777,18 @@ def check_C09(ctx):
                  "server with the handler's ctx.Deadline() measured; caller deadlines from 100 us to 10 years (plus seeded "
                  "random ones) through the real client and server over loopback with one-sided scaled measurements",
                  extra_cases=extra, sig_keys=("fam", "unit", "val", "digits", "sign", "kind"))
+    # the arithmetic behind Deadline's constants and the repaired saturation, for
+    # ALL values (TLC's integers are 32-bit and it cannot enumerate Nat): Apalache
+    res = {inv: vlib.run_apalache(ctx.scratch, "TimeoutArith", inv) for inv in ("Saturates", "ThresholdLemma", "OldNeverNegative")}
+    ctx.extra["apalache_TimeoutArith"] = res
+    if res["Saturates"] != "holds" or res["ThresholdLemma"] != "holds":
+        raise vlib.Infra("TimeoutArith: the specification's own arithmetic lemmas do not hold: %s" % res)
+    if res["OldNeverNegative"] != "violated":
+        raise vlib.Infra("TimeoutArith: the pre-repair formula should have a wrapping counterexample (vacuity guard): %s" % res)
+    ctx.rules.append("Apalache (unbounded integers): TimeoutArith!Saturates -- the duration computed by the server's formula is "
+                     "min(v * unit, MaxInt64) for every v in 0..2^63-1 and every unit -- and !ThresholdLemma -- an 8-digit "
+                     "value overflows iff the unit is hours and the value is >= 2562048, the constants Deadline uses; the "
+                     "pre-repair formula Wrap64(v * unit) has a negative counterexample")
     ctx.assumptions += ["instants are taken with Go's monotonic clock in one process and scaled outward into units < 2^30",
                         "tiny caller deadlines that expire before the handler runs are counted as conforming"]
 
